@@ -24,7 +24,7 @@ def _yields(pos, data):
         ("C17-valid-tag", "yielded.number >= 1 and (yielded.wire_type == 0 or yielded.wire_type == 1"
                           " or yielded.wire_type == 2 or yielded.wire_type == 5)"),
         ("tag", f"yielded.number == {TAG} // 8 and yielded.wire_type == {TAG} % 8".format(TAG=TAG)),
-        ("payload-varint", f"implies(yielded.wire_type == 0, is_int(yielded.value) and as_int(yielded.value) =="
+        ("payload-varint", f"implies(yielded.wire_type == 0, is_pint(yielded.value) and as_int(yielded.value) >= 0 and as_int(yielded.value) =="
                            f" VDEC(D0[(P + VLEN(D0[P:])):(P + VLEN(D0[P:])) + VLEN(D0[(P + VLEN(D0[P:])):])]) and {pos} == (P + VLEN(D0[P:])) + VLEN(D0[(P + VLEN(D0[P:])):]))".format(pos=pos)),
         ("payload-fixed64", f"implies(yielded.wire_type == 1, is_bytes(yielded.value) and len(as_bytes(yielded.value)) == 8"
                             f" and as_bytes(yielded.value) == D0[(P + VLEN(D0[P:])):(P + VLEN(D0[P:])) + 8] and {pos} == (P + VLEN(D0[P:])) + 8)".format(pos=pos)),
@@ -51,7 +51,7 @@ CONTRACTS = [
        loops={0: LOOP(inv=[("frame", "stream.data == D0 and 0 <= stream.pos <= len(D0)")],
                       ghost_head={"P": "stream.pos"})},
        yields=_yields("stream.pos", "D0") + [("frame", "stream.data == D0")],
-       ends=[("C10-ends-only-at-a-record-boundary", "P == len(D0) and stream.pos == len(D0)")],
+       ends=[("C10-ends-only-at-a-record-boundary", "P == len(D0) and stream.pos == len(D0)"), ("frame", "stream.data == D0")],
        raises=[("ValueError", "may", ""), ("EOFError", "may", "")],
        use=[("SLICE_TAIL", {"d": "D0", "p": "P", "q": "len(D0)"}),
             ("SLICE_TAIL", {"d": "D0", "p": "P", "q": "P + VLEN(D0[P:])"})],
